@@ -270,7 +270,7 @@ def format_code(
             tracing.fix_reimported_names,
         ))
 
-    source = single_run_fixes(source)
+    source = single_run_fixes(source, preserve=preserve)
 
     # Remember past versions of source code.
     # This lets us break if it stops making changes, or if it enters a cycle where it returns
